@@ -60,6 +60,10 @@ def cases(tier, seed):
                    source=rnd.choice([0, 2]), reason=rnd.choice([0, 1, 5, 200]),
                    pause=rnd.choice([0.2, 0.7, 3.0]), nfirst=rnd.choice([1, 2]),
                    seed=seed * 29 + i)
+    for i in range(40 if tier == 'quick' else 1500):
+        yield dict(kind='abort-acceptor-while-receiving', reason=rnd.choice([0, 1, 2, 5, 200]),
+                   cap=rnd.choice([4096, 16384, None]), size=rnd.choice([60000, 200000]),
+                   seed=seed * 31 + i)
     for i in range(30 if tier == 'quick' else 1000):
         yield dict(kind='peer-abort-during-transfer', source=rnd.choice([0, 2]),
                    reason=rnd.choice([0, 1, 5, 200]), after=rnd.choice([2, 5, 9]),
@@ -480,6 +484,45 @@ def run_case(case):
                     [p['result'], p['source'], p['reason']], triple))
             if services_ran:
                 v('service-invoked-on-refused-association', repr(services_ran))
+            return _fin(world, viol, case, wire)
+
+        if kind == 'abort-acceptor-while-receiving':
+            # the accepting application aborts (from its handler thread) while a large C-STORE
+            # from the requestor is still pouring in: the requestor, busy writing, must still get
+            # the A-ABORT with the acceptor's reason, not a bare connection loss
+            world.net.capacity = case['cap']
+            cli.max_pdu_length = 16384
+            cli.timeout = 60.0
+            got = {}
+
+            def user7():
+                try:
+                    with cli.request_association(remote) as assoc:
+                        got['established'] = True
+                        msg = dimsemessages.CEchoRQMessage()
+                        msg.message_id = magic_abort
+                        msg.sop_class_uid = rc.VERIFICATION
+                        assoc.send(msg, assoc.get_scu(rc.VERIFICATION).args[1].id)
+                        got['st'] = int(assoc.get_scu(CT)(dataset(case['size']), 5))
+                except Exception as e:  # pylint: disable=broad-except
+                    got['exc'] = e
+            world.spawn(user7, 'user')
+            world.run(tmax=600)
+            world.drain(5.0)
+            asceprovider.Association._get_dul_message = orig
+            e = got.get('exc')
+            s2c = _pdus([b for d, b in wire if d == 'S>C'])
+            sent_abort = [p for p in s2c if p['kind'] == 'A-ABORT']
+            if not got.get('established'):
+                v('association-not-established', repr(e))
+            elif not sent_abort:
+                v('abort-not-transmitted', 'server sent %r' % [p['kind'] for p in s2c][-4:])
+            elif not isinstance(e, exceptions.AssociationAbortedError):
+                v('abort-not-surfaced-at-requestor', 'user saw %r' % (e,))
+            elif (e.source, e.reason_diag) != (2, case['reason']):
+                v('abort-fields-not-preserved point=while-receiving',
+                  'acceptor aborted with (2,%d) while %d bytes were pouring in; the requestor '
+                  'reports %r' % (case['reason'], case['size'], (e.source, e.reason_diag)))
             return _fin(world, viol, case, wire)
 
         def user():
